@@ -253,6 +253,7 @@ func RunHistoryB(dir string, c Cfg, id string, next func() (Call, bool), wantTre
 	hist := &History{ID: id, Cfg: c}
 	prevBlocks := int64(0)
 	var snapshot []byte
+	var foreignItems []string
 	for i := 0; ; i++ {
 		call, ok := next()
 		if !ok {
@@ -282,6 +283,31 @@ func RunHistoryB(dir string, c Cfg, id string, next func() (Call, bool), wantTre
 			case "@snapshot":
 				e.Close()
 				snapshot, _ = os.ReadFile(e.DBPath)
+			case "@foreign":
+				// the drive becomes an archive written by a standard tar writer; a fresh process
+				// with an empty index opens it
+				spec, perr := ParseForeign(call.Args)
+				if perr != nil {
+					return nil, perr
+				}
+				e.Close()
+				os.Remove(e.Drive)
+				if werr := WriteForeign(e.Drive, spec); werr != nil {
+					return nil, fmt.Errorf("@foreign: %w", werr)
+				}
+				ne, err := NewEnvAt(dir, e.Drive, e.DBPath+fmt.Sprintf(".%d", i), c)
+				if err != nil {
+					return nil, err
+				}
+				e = ne
+				defer ne.Close()
+				s = NewSession(e)
+				items, _, serr := ScanTape(e.Drive, 0)
+				if serr != nil {
+					return nil, serr
+				}
+				foreignItems = ForeignItemLines(items, spec)
+				prevBlocks = CompleteBlocks(e.Drive)
 			case "@reopen":
 				// a fresh process over the same drive: new managers, new persister, no handles
 				e.Close()
@@ -318,6 +344,10 @@ func RunHistoryB(dir string, c Cfg, id string, next func() (Call, bool), wantTre
 				c = nc
 			}
 			st := Step{Call: call, Res: "ok", Env: "env\tnow=0\trecs=-"}
+			if call.Method == "@foreign" {
+				// the driver learns the archive's items (as read by the harness's own tar reader)
+				st.Env = strings.Join(append(foreignItems, st.Env), "\n")
+			}
 			st.Obs = append(st.Obs, "res\tok")
 			rows, err := e.RowLines()
 			if err != nil {
@@ -438,11 +468,11 @@ func DriverInput(hs []*History) []byte {
 // ModelStep is the model's output for one call.
 type ModelStep struct {
 	Unmodelled bool
-	Obs    []string
-	RefRes string
-	Tree   []string
-	Trig   []string
-	Br     []string
+	Obs        []string
+	RefRes     string
+	Tree       []string
+	Trig       []string
+	Br         []string
 }
 
 // RunDriver pipes the histories through the compiled Lean driver and parses its output.
